@@ -57,6 +57,9 @@ fn prepare(plan: &Plan) -> Option<Prepared> {
     }
     let mut block = None;
     if !get_blocks.is_empty() {
+        // the request's order is the iteration order of a HashMap: fix which body is withheld
+        get_blocks.sort_by_key(|h| w.main.chain.number_of(h).unwrap_or(0));
+        get_blocks.dedup();
         let last = get_blocks.pop().unwrap();
         for h in get_blocks { let n = w.main.chain.number_of(&h)?; let peer = w.peer; w.net.as_mut().unwrap().sp_recv(peer, send_block_message(w.main.chain.block(n))); }
         block = Some(send_block_message(w.main.chain.block(w.main.chain.number_of(&last)?)));
@@ -146,6 +149,69 @@ fn split(prep: Prepared) -> (Parts, (Option<crate::protocols::LightClientProtoco
     (parts, (Some(lc), Some(fp), Some(sp)), w)
 }
 
+/// readers: get_cells_capacity on one thread while another indexes the tip block and rolls it back again, over and over;
+/// every reply must pair a capacity and a tip that existed together in the store
+fn reader_case(world: u64, plan: &Plan, out: &mut Out) {
+    let mut w = build(plan);
+    w.exec(&Op::Init);
+    let script = w.pool[0].clone();
+    w.storage.update_filter_scripts(vec![crate::storage::ScriptStatus { script: script.clone(), script_type: ScriptType::Lock, block_number: 0 }], crate::storage::SetScriptsCommand::All);
+    // a block whose transactions pay to the script
+    let top = (3..w.main.tip()).find(|n| w.main.chain.bodies[*n as usize].iter().any(|t| t.raw().outputs().into_iter().any(|o| o.lock() == script)));
+    let top = match top { Some(t) => t, None => return };
+    for n in 1..top { w.storage.filter_block(w.main.chain.block(n)); }
+    w.storage.update_block_number(top - 1);
+    let below = w.main.chain.headers[top as usize - 1].data();
+    let at = w.main.chain.headers[top as usize].data();
+    let block = w.main.chain.block(top);
+    let td = w.main.chain.tds[top as usize].clone();
+    w.storage.update_last_state(&td, &below, &[]);
+    let cap_of = |st: &Storage| -> u64 {
+        let rpc = BlockFilterRpcImpl { swc: StorageWithChainData::new(st.clone(), Arc::new(Peers::new(1, 10, st.get_last_check_point())), Default::default()) };
+        let key = crate::service::SearchKey { script: script.clone().into(), script_type: crate::service::ScriptType::Lock, filter: None, with_data: None, group_by_transaction: None };
+        rpc.get_cells_capacity(key).map(|c| c.capacity.value()).unwrap_or(0)
+    };
+    let cap_without = cap_of(&w.storage);
+    w.storage.filter_block(block.clone());
+    w.storage.update_block_number(top);
+    let cap_with = cap_of(&w.storage);
+    w.storage.rollback_to_block(top);
+    if cap_with == cap_without { return; }
+    let stop = Arc::new(std::sync::atomic::AtomicBool::new(false));
+    let (st_w, stop_w, below_w, at_w, td_w) = (w.storage.clone(), stop.clone(), below.clone(), at.clone(), td.clone());
+    let writer = std::thread::spawn(move || {
+        let mut cycles = 0u64;
+        while !stop_w.load(std::sync::atomic::Ordering::Relaxed) {
+            // the tip moves up, the block is indexed; then the block is rolled back and the tip moves down again
+            st_w.update_last_state(&td_w, &at_w, &[]);
+            st_w.filter_block(block.clone());
+            st_w.update_block_number(top);
+            st_w.rollback_to_block(top);
+            st_w.update_last_state(&td_w, &below_w, &[]);
+            cycles += 1;
+        }
+        cycles
+    });
+    let rpc = BlockFilterRpcImpl { swc: StorageWithChainData::new(w.storage.clone(), Arc::new(Peers::new(1, 10, w.storage.get_last_check_point())), Default::default()) };
+    let mut bad: Vec<(u64, u64)> = Vec::new();
+    let mut seen: std::collections::BTreeMap<(u64, u64), u64> = Default::default();
+    let reads = 2500;
+    for _ in 0..reads {
+        let key = crate::service::SearchKey { script: script.clone().into(), script_type: crate::service::ScriptType::Lock, filter: None, with_data: None, group_by_transaction: None };
+        if let Ok(c) = rpc.get_cells_capacity(key) {
+            let (cap, tip) = (c.capacity.value(), c.block_number.value());
+            *seen.entry((cap, tip)).or_insert(0) += 1;
+            // with the block indexed the tip is the block itself; the lower tip only ever coexists with the index without it
+            if cap == cap_with && tip == top - 1 { bad.push((cap, tip)); }
+        }
+    }
+    stop.store(true, std::sync::atomic::Ordering::Relaxed);
+    let cycles = writer.join().unwrap_or(0);
+    let oracle = if bad.is_empty() { Ok(()) } else { Err(format!("[C17-reader-saw-mixed-state] get_cells_capacity paired the capacity that includes block #{} with tip #{} in {} of {} replies; no store state ever held both", top, top - 1, bad.len(), reads)) };
+    out.case(&format!("reader-{}", world), &["reader", "get_cells_capacity"], "(VN 1)", &Val::n(1), oracle,
+        &format!("world {}: {} replies while another thread indexed and rolled back block #{} {} times; (capacity, tip) pairs seen: {:?}", world, reads, top, cycles, seen));
+}
+
 pub(crate) fn run(seed: u64, n: u64, out: &mut Out) {
     let guard = ckb_systemtime::faketime();
     guard.set_faketime(T0);
@@ -155,6 +221,7 @@ pub(crate) fn run(seed: u64, n: u64, out: &mut Out) {
         let len = rng.range(26, 36);
         let fork_at = rng.range(len - 12, len - 6);
         let plan = Plan { seed: seed * 7_000 + world, len, fork_at, ops: vec![] };
+        reader_case(world, &plan, out);
         // ---- each operation alone: number of writes, lock probe at every write, outcome ----
         let mut n_writes: Vec<u64> = Vec::new();
         for act in acts {
